@@ -3,6 +3,8 @@ import Amgcl.Driver.DirectC
 import Amgcl.Driver.Solvers
 import Amgcl.Model.SolverGMRESC
 import Amgcl.Model.SolverCplx2
+import Amgcl.Model.SolverBiCGStabLC
+import Amgcl.Driver.Solvers2
 /-!
 Handlers for the Krylov solvers at the EXACT complex value type `std::complex<Q>` (harness/h_cplx_exact.cpp): the SAME generic model
 functions of `Model/Solver{CG,BiCGStab,Richardson}.lean` and the `conj`-parametrised GMRES / FGMRES of `Model/SolverGMRESC.lean`,
@@ -14,6 +16,7 @@ executed at the carrier `CRat` (Gaussian rationals).
     cxs_gmres      side M maxiter tol abstol          A PREC f x0
     cxs_fgmres     M maxiter tol abstol               A PREC f x0
     cxs_lgmres     side M K maxiter tol abstol        A PREC f x0      (`always_reset` = true, a fresh object)
+    cxs_bicgstabl  side L delta convex maxiter tol abstol   A PREC f x0      (`delta` a non-negative real)
     cxs_idrs       s omega smoothing replacement maxiter tol abstol   A PREC f x0 RAW
 
 `RAW` = the `s` REAL random vectors the constructor of `idrs` draws (one thread, `mt19937(0)`); the shadow vector entries are
@@ -60,6 +63,11 @@ def sqrtNorm (z : CRat) : CRat := ofReal (rsqrt (cabs z))
 
 /-- `math::norm` of a complex scalar as a `scalar_type` value -/
 def absC (z : CRat) : CRat := ofReal (cabs z)
+
+/-- the value-type dependent scalar operations of detail/qr.hpp and bicgstabl.hpp at `std::complex<Q>` -/
+def cplxOps : CplxOps CRat :=
+  { conj := cconj, absC := absC, re := fun z => ofReal z.re, ltR := fun a b => decide (a.re < b.re),
+    sqrtR := fun z => ofReal (rsqrt z.re) }
 
 def cip : Vec CRat → Vec CRat → CRat := innerProductSerial cconj
 
@@ -146,6 +154,11 @@ def handle (op : String) (args : List String) : Option String :=
     solveOpC (do let side ← Solvers.pSide; let M ← pNat; let K ← pNat; let c ← pCommonC
                  pure ({ c with M := M, K' := K, alwaysReset := true, pside := side } : LGMRES.Params CRat))
       (fun p => decide (1 ≤ p.M)) (fun p => LGMRES.callC cconj p cip csqrt machEpsC) (fun _ n => LGMRES.Work.fresh n) args
+  | "cxs_bicgstabl" =>
+    solveOpC (do let side ← Solvers.pSide; let L ← pNat; let delta ← pNonneg; let cv ← Solvers.pBool; let c ← pCommonC
+                 pure ({ c with L := L, delta := ofReal delta, convex := cv, pside := side } : BiCGStabL.Params CRat))
+      (fun p => decide (1 ≤ p.L)) (fun p => BiCGStabL.callC cplxOps p cip sqrtNorm machEpsC (ofReal Solvers2.c07))
+      (fun _ n => BiCGStabL.Work.fresh n) args
   | "cxs_idrs" =>
     withArgs (do let s ← pNat; let om ← pNonneg; let sm ← Solvers.pBool; let rp ← Solvers.pBool; let c ← pCommonC
                  let call ← pCallC; let raw ← pMany s pVec
